@@ -3,9 +3,12 @@ package vref
 import (
 	"bufio"
 	"encoding/json"
+	"errors"
 	"fmt"
+	"math/rand"
 	"os"
 	"reflect"
+	"regexp"
 	"runtime/debug"
 	"sort"
 	"strings"
@@ -23,6 +26,7 @@ type Spec struct {
 	Funcs    []*FuncSpec          `json:"funcs,omitempty"`
 	Enums    map[string]*EnumSpec `json:"enums,omitempty"`
 	MaxDepth int                  `json:"maxDepth,omitempty"`
+	MaxFaults int                 `json:"maxFaults,omitempty"`
 }
 
 func (s *Spec) has(m string) bool {
@@ -67,6 +71,9 @@ type MethodEvent struct {
 	SrcType     string      `json:"src_type"`
 	TgtType     string      `json:"tgt_type"`
 	Digests     int         `json:"distinct_sources"`
+	FaultRuns   int         `json:"fault_runs"`   // executions under a non-empty fault plan
+	FaultSites  int         `json:"fault_sites"`  // distinct fallible call sites enumerated
+	PathChecks  int         `json:"path_checks"`  // error paths compared with the expected location
 }
 
 // Out is the JSONL event sink of a batch binary.
@@ -398,6 +405,9 @@ func runMethod(o *Out, spec *Spec, r *Ref, m *MethodSpec) {
 		}
 	}
 	ev.Digests = len(digests)
+	if spec.has("faults") && ft.NumOut() == 2 {
+		runFaults(spec, r, m, fn, S, T, srcIdx, ev, addViol)
+	}
 	if spec.has("concurrent") {
 		runConcurrent(spec, r, m, fn, S, srcIdx, ev)
 	}
@@ -534,4 +544,176 @@ func (o *Out) Try(caseName, method string, f func()) {
 		}
 	}()
 	f()
+}
+
+var wrapFieldRe = regexp.MustCompile(`error setting (field (\S+?)|index (\d+)): `)
+
+// runFaults enumerates fault plans: every single reachable fallible call of a value, then a few subsets.
+func runFaults(spec *Spec, r *Ref, m *MethodSpec, fn reflect.Value, S, T reflect.Type, srcIdx int, ev *MethodEvent, addViol func(Violation)) {
+	ft := fn.Type()
+	g := NewGen(spec.Seed*31 + 7)
+	g.UniqueLeaves = true
+	g.Share = false
+	maxSites := spec.MaxFaults
+	if maxSites == 0 {
+		maxSites = 30
+	}
+	defer SetFaultPlan()
+	for round := 0; round < 3; round++ {
+		if round == 0 {
+			g.Mode = GenFull
+		} else {
+			g.Mode = GenRandom
+		}
+		src := g.Value(S)
+		srcStr := Format(src)
+		args := make([]reflect.Value, ft.NumIn())
+		r.Ctx = map[reflect.Type]reflect.Value{}
+		for a := 0; a < ft.NumIn(); a++ {
+			if a == srcIdx {
+				args[a] = src
+				continue
+			}
+			cg := NewGen(spec.Seed + int64(round*17+a))
+			cg.Mode = GenFull
+			cv := cg.Value(ft.In(a))
+			args[a] = cv
+			r.Ctx[ft.In(a)] = cv
+		}
+		// which fallible calls does this value reach?
+		SetFaultPlan()
+		RecordCalls(true)
+		_, refErr := r.Method(m, src, T)
+		ids := RecordCalls(false)
+		if refErr != nil {
+			if _, ok := refErr.(*Unsupported); ok {
+				ev.Abstained++
+				ev.AbstainWhy = refErr.Error()
+				return
+			}
+		}
+		seen := map[int64]bool{}
+		var sites []int64
+		for _, id := range ids {
+			if !seen[id] {
+				seen[id] = true
+				sites = append(sites, id)
+			}
+		}
+		if len(sites) > maxSites {
+			sites = sites[:maxSites]
+		}
+		ev.FaultSites += len(sites)
+		check := func(plan []int64, single bool) {
+			SetFaultPlan(plan...)
+			res, perr, pstack := safeCall(fn, args)
+			ev.FaultRuns++
+			if perr != "" {
+				addViol(Violation{Kind: "panic", Method: m.Name, Detail: perr + "\n" + pstack, Source: srcStr})
+				return
+			}
+			var got error
+			if !res[1].IsNil() {
+				got = res[1].Interface().(error)
+			}
+			_, want := r.Method(m, src, T)
+			re, isRef := want.(*RefError)
+			if !isRef {
+				// the plan is not reachable from this value according to the reference: nothing to compare
+				return
+			}
+			if got == nil {
+				addViol(Violation{Kind: "error_swallowed", Method: m.Name, Detail: fmt.Sprintf("custom function failed for call id(s) %v at %v but the method returned a nil error", plan, re.Path), Source: srcStr, Got: Format(res[0])})
+				return
+			}
+			var inj *Injected
+			if !errors.As(got, &inj) {
+				addViol(Violation{Kind: "error_not_wrapped", Method: m.Name, Detail: fmt.Sprintf("returned error %q does not wrap the failing function's error (plan %v)", got.Error(), plan), Source: srcStr})
+				return
+			}
+			inPlan := false
+			for _, id := range plan {
+				if id == inj.ID {
+					inPlan = true
+				}
+			}
+			if !inPlan {
+				addViol(Violation{Kind: "error_identity", Method: m.Name, Detail: fmt.Sprintf("returned error wraps injected fault %d which is not in the plan %v", inj.ID, plan), Source: srcStr})
+				return
+			}
+			if !single {
+				return
+			}
+			// location path
+			var exp []string
+			if ire, ok := want.(*RefError); ok {
+				exp = ire.Path
+			}
+			switch m.WrapMode {
+			case "using":
+				ev.PathChecks++
+				gotPath := wrapPath(got)
+				if strings.Join(gotPath, " ") != strings.Join(exp, " ") {
+					addViol(Violation{Kind: "error_path", Method: m.Name, Detail: fmt.Sprintf("wrapErrorsUsing location %v, expected %v (fault %d)", gotPath, exp, plan[0]), Source: srcStr})
+				}
+			case "wrapErrors":
+				ev.PathChecks++
+				var gotSeq []string
+				for _, mm := range wrapFieldRe.FindAllStringSubmatch(got.Error(), -1) {
+					if mm[2] != "" {
+						gotSeq = append(gotSeq, "field:"+mm[2])
+					} else {
+						gotSeq = append(gotSeq, "index:"+mm[3])
+					}
+				}
+				// ordered subsequence of the expected location
+				j := 0
+				for _, e := range exp {
+					if j < len(gotSeq) && gotSeq[j] == e {
+						j++
+					}
+				}
+				if j != len(gotSeq) {
+					addViol(Violation{Kind: "error_path", Method: m.Name, Detail: fmt.Sprintf("wrapErrors prefixes %v are not an ordered subsequence of the location %v (fault %d): %s", gotSeq, exp, plan[0], got.Error()), Source: srcStr})
+				} else if len(exp) > 0 && !strings.HasPrefix(exp[len(exp)-1], "key:") && len(gotSeq) == 0 {
+					addViol(Violation{Kind: "error_path", Method: m.Name, Detail: fmt.Sprintf("wrapErrors added no location although the failing element is %v: %s", exp, got.Error()), Source: srcStr})
+				}
+			}
+		}
+		for _, id := range sites {
+			check([]int64{id}, true)
+		}
+		// a few multi-fault plans
+		rr := rand.New(rand.NewSource(spec.Seed + int64(round)))
+		for k := 0; k < 3 && len(sites) >= 2; k++ {
+			n := 2 + rr.Intn(2)
+			var plan []int64
+			for x := 0; x < n; x++ {
+				plan = append(plan, sites[rr.Intn(len(sites))])
+			}
+			check(plan, false)
+		}
+		// and the empty plan must succeed with the reference value
+		SetFaultPlan()
+		res, perr, _ := safeCall(fn, args)
+		if perr == "" && !res[1].IsNil() {
+			addViol(Violation{Kind: "unexpected_error", Method: m.Name, Detail: "error without any planned fault: " + res[1].Interface().(error).Error(), Source: srcStr})
+		}
+	}
+}
+
+// wrapPath concatenates the recorded Wrap elements, outermost first.
+func wrapPath(err error) []string {
+	var out []string
+	for err != nil {
+		if w, ok := err.(interface{ PathStrings() []string }); ok {
+			out = append(out, w.PathStrings()...)
+		}
+		u, ok := err.(interface{ Unwrap() error })
+		if !ok {
+			break
+		}
+		err = u.Unwrap()
+	}
+	return out
 }
